@@ -1000,4 +1000,17 @@ def staticObject (init : Init) (ty : Ty) : Except Fail (List Cell) := do
   let im ← gvarInit init ty
   pure im.cells
 
+/-! ## The flexible array member after `initializer` (added for C05_flex_size) -/
+
+/-- the number of elements of the flexible member's node (`.flex`: no initializer reached it) -/
+def flexLen : Init → Nat
+  | .arr xs => xs.length
+  | _ => 0
+
+/-- element type of the flexible member (the last member) and the number of elements its node has after the initializer -/
+def flexResolved : Members → List Init → Option (Ty × Nat)
+  | [(_, t)], [c] => t.elem?.map (fun el => (el, flexLen c))
+  | _ :: m :: ms, _ :: cs => flexResolved (m :: ms) cs
+  | _, _ => none
+
 end ChibiVerif.Init
